@@ -1,0 +1,11 @@
+//go:build !verif
+
+// Package verifhook provides observation points for the verification
+// machinery in /verif. Without -tags verif, all calls are no-ops.
+package verifhook
+
+// Enabled reports whether hooks are compiled in.
+const Enabled = false
+
+// At is a no-op unless built with -tags verif.
+func At(point string, kv ...interface{}) {}
